@@ -32,7 +32,8 @@ from vlib.world import LONG_AGO, World
 LEVEL = "exploration"
 
 FIELDS = ["context", "outputs", "status", "task"]
-VARIANTS = [(f, path, retry) for f in FIELDS for path in ("plain", "txn") for retry in (False, True)]
+VARIANTS = [(f, path, retry) for f in FIELDS for path in ("plain", "txn") for retry in (False, True)] + \
+           [("context", "plain-phase", False), ("context", "txn-phase", False), ("outputs", "plain-phase", True), ("task", "plain-phase", False)]
 
 
 def api_world() -> World:
@@ -70,11 +71,17 @@ def writer_program(i: int, field: str, path: str, retry: bool, results: dict[int
                 stg.tasks[i % 2].status = WorkflowStatus.RUNNING
                 stg.tasks[i % 2].task_exception_details = {f"t{i}": i}
                 stg.context[f"w{i}"] = i
+            phase = stg.status.name if field != "status" else "NOT_STARTED"
             try:
-                if path == "txn":
+                if path.startswith("txn"):
                     with w.store.transaction(w.queue) as txn:
-                        txn.store_stage(stg)
+                        if path == "txn-phase":
+                            txn.store_stage(stg, expected_phase=phase)
+                        else:
+                            txn.store_stage(stg)
                         txn.push_message(CancelRegion(execution_id="W1", region=f"writer{i}"))
+                elif path == "plain-phase":
+                    w.store.store_stage(stg, expected_phase=phase)
                 else:
                     w.store.store_stage(stg)
                 results[i] = {"result": "ok", "read_versions": read_versions, "attempts": attempts}
@@ -120,7 +127,7 @@ def judge_api(c: Campaign, w: World, s: Sched, pre: dict[int, int], variant: tup
     if final.version != len(ok_w):
         viol.append(("version-count", f"final version {final.version}, {len(ok_w)} successful saves"))
     regions = sorted(json.loads(r[0]).get("region") for r in w.rows("SELECT payload FROM queue_messages WHERE message_type = 'CancelRegion'"))
-    want = sorted(f"writer{i}" for i in ok_w) if path == "txn" else []
+    want = sorted(f"writer{i}" for i in ok_w) if path.startswith("txn") else []
     if regions != want:
         viol.append(("queue-vs-saves", f"queued messages {regions}, successful transactional writers {want}"))
     for clause, detail in viol:
@@ -343,7 +350,7 @@ def run(c: Campaign, jobs: int) -> None:
     for n_ in pair_scenarios():
         args.append((shard_pair, (c.prop, c.tier, c.seed * 1000 + len(args), n_, 0, None, True, 20 if quick else 500)))
     run_shards(c, _dispatch, args, jobs)
-    c.exhaustive_parts.append(f"store API: 16 variants (field x save path x retry) with 2 writers, all schedules with <= {P2} pre-emptions; 3 variants with 3 writers, <= {P3}; "
+    c.exhaustive_parts.append(f"store API: 20 variants (field x save path incl. expected-phase saves x retry) with 2 writers, all schedules with <= {P2} pre-emptions; 3 variants with 3 writers, <= {P3}; "
                               f"5 engine pairs, all schedules with <= 2 (2 workers) / 1 (3 workers) pre-emptions" + ("" if quick else " (thorough: one more each)"))
     c.rule = ("case = (writer variant or engine pair, schedule as a set of pre-emption points). Non-trivial (a) = two writers held the same version at the same "
               "time (both read before either wrote) under >= 1 pre-emption; (b) = a schedule with >= 1 effective pre-emption. Distinct = (variant, pre-emption set).")
